@@ -245,3 +245,25 @@ Definition c11_ok (h_orig h_restarted : list step_obs) (k : nat) : bool :=
   no_panic h_restarted.
 
 Definition c05_ok (h : list step_obs) : bool := forallb c05_step_ok h.
+
+(** C04: every answer of the request matrix is the one the routing rule gives
+    for the table read from the state file at that step (services without TLS,
+    running): 404 iff no service is chosen, else served by a target of the
+    chosen service. *)
+Definition c04_req_ok (l : list snap_svc) (q : request) (o : resp_obs) : bool :=
+  match route (snap_table l) (q_host q) (q_path q) with
+  | None => (ro_status o =? 404)
+  | Some (n, _) =>
+    match find (fun s => str_eqb (sn_name s) n) l with
+    | Some s => (ro_status o =? 200) && mem_str (ro_served_by o) (sn_active s)
+    | None => false
+    end
+  end.
+
+Definition c04_step_ok (o : step_obs) : bool :=
+  match so_snapshot o with
+  | Some l => forallb (fun qo => c04_req_ok l (fst qo) (snd qo)) (so_requests o)
+  | None => forallb (fun qo => (ro_status (snd qo) =? 404)) (so_requests o)
+  end.
+
+Definition c04_ok (h : list step_obs) : bool := forallb c04_step_ok h.
